@@ -273,7 +273,7 @@ def run(tier):
             rep.violation(key, case)
         for s in res["samples"][:1]:
             rep.sample(s, cap=2)
-    spaces = e1.QUICK_SPACES if tier == "quick" else e1.QUICK_SPACES + [(4, e1.A6, None), (6, e1.A2, None)]
+    spaces = e1.QUICK_SPACES if tier == "quick" else e1.QUICK_SPACES + [(4, e1.A7, None), (6, e1.A2, None)]
     orbits = 0
     for _, res in pmap(roundtrip_shard, e1.space_shards(spaces)):
         rep.add(states=res["states"], transitions=res["transitions"], traces_validated_against_impl=res["exec"])
